@@ -5,6 +5,10 @@ scratch worktree of /repo.  For each: the 96 tests of /repo must still pass, and
 
     python3 notes/c19-facebook-mutations.py [WT [mutation names...]]   (WT = the framework checkout, default: cwd)
 
+The first four are the reverts, one at a time, of the fixes fec1df7, 3eab049, ad3e67d, 7e5e990 (formerly the
+known findings KF-C19-FB-1..4): each must be reported as an *unlisted* violation by the oracle (the former
+witness inputs are in the corpus of the part).
+
 Two further edits were tried and are not in the list because they break a test of /repo: keeping the
 `a.` prefix in the album id of the photos route (caught, failing input found) and flipping the id / handle
 test of the groups route (caught by the correspondence only: the flipped parser agrees with itself, and the
@@ -19,6 +23,21 @@ WT = os.path.abspath(sys.argv[1] if len(sys.argv) > 1 else ".")
 PY = "/venv/bin/python"
 
 MUTATIONS = [
+    ("revert-fec1df7", "revert of fec1df7: repeated slashes are not collapsed before routing",
+     '    splitted = splitted._replace(path=SLASH_SQUEEZE_RE.sub("/", splitted.path))\n', ''),
+    ("revert-3eab049", "revert of 3eab049: set=g. gives group_id ''",
+     'group_id = group_id.split("g.", 1)[1] or None', 'group_id = group_id.split("g.", 1)[1]'),
+    ("revert-3eab049-album", "revert of 3eab049 (album half): set=a. gives album_id ''",
+     'album_id = album_id.split("a.", 1)[1] or None', 'album_id = album_id.split("a.", 1)[1]'),
+    ("revert-ad3e67d", "revert of ad3e67d: the album segment is read with replace('a.', '')",
+     '        album_id = parts[2]\n\n        # NOTE: only the "a." prefix is not part of the album id\n'
+     '        if album_id.startswith("a."):\n            album_id = album_id[2:]\n\n'
+     '        if not album_id:\n            return None\n',
+     '        album_id = parts[2].replace("a.", "")\n'),
+    ("revert-7e5e990", "revert of 7e5e990: the netloc is tested case-sensitively",
+     '"facebook" not in splitted.netloc.lower()', '"facebook" not in splitted.netloc'),
+    ("album-empty-guard", "the photos route keeps an empty album id (/x/photos/a./5)",
+     '        if not album_id:\n            return None\n\n        photo_id', '        photo_id'),
     ("videos-guard", "revert of a D45 guard: /x/videos/ indexes parts[2]",
      '        if len(parts) < 3:\n            return None\n\n        return FacebookVideo(parts[2], parent_id=parts[0])',
      '        return FacebookVideo(parts[2], parent_id=parts[0])'),
